@@ -14,7 +14,8 @@ checked wherever the body ends up.  Which functions, and under which runtime con
                    element is linked (unlinking a private, unlinked element touches nothing shared)
   kind 'limits'  : sequence_handler_base::set_limits -- only when the handler is a sequenced one whose handle is already
                    registered in a sequence (then other threads can read the limits through the sequence)
-  kind 'monitor' : deathwatched<T>::trompeloeil_expect_death / lifetime_monitor::notify (monitor slot / died flag)
+  kind 'monitor' : lifetime_monitor::notify (died flag / counters); the monitor slot accessors of null_on_move and the counter
+                   reads of sequence_handler_base are in 'always'
 
 Private lists (conditions, side effects, yield expressions) are owned by the expectation under construction and are
 deliberately not instrumented.
@@ -32,6 +33,12 @@ ALWAYS = [
     r'^_ZN11trompeloeil4listINS_16sequence_matcherENS_15ignore_disposerEE(10push_front|9push_back)EPS',
     r'^_ZN11trompeloeil21sequence_handler_base14increment_callEv$',
     r'^_ZN11trompeloeil4findI.*EEPNS_17call_matcher_baseIT_EERNS_17call_matcher_listIS',
+    # call counters are read by cost() / is_completed() of other threads: every read happens under the lock
+    r'^_ZNK11trompeloeil21sequence_handler_base(12is_satisfied|12is_saturated|9get_calls)Ev$',
+    # the monitor slot of a deathwatched object (null_on_move): read / written only inside locked regions
+    # (copy / move construction and assignment of the slot belong to a not-yet-shared or caller-owned object and are excluded)
+    r'^_ZNK11trompeloeil12null_on_moveINS_16lifetime_monitorEE(cvbEv|ptEv|deEv)$',
+    r'^_ZN11trompeloeil12null_on_moveINS_16lifetime_monitorEE(4leakEv|aSEPS1_)$',
 ]
 LINKED = [
     r'^_ZN11trompeloeil9list_elemINS_17call_matcher_baseI.*EEE6unlinkEv$',
